@@ -123,6 +123,15 @@ for _n, _w in (("BYTE", 1), ("WORD", 2), ("DWORD", 4), ("LWORD", 8), ("ENGUNIT",
         ref=f"spec.cip_codec.decode_bits('{_n}', buffer)", compare=["result", "exc", "stream:buffer"],
         props=["C06", "C07", "C08"])
 
+# frame condition: every decode returns a value of its own -- a caller that edits the list it got (read, flip a flag, write back)
+# does not change what the next decode of the same bytes returns
+for _n, _w in (("BYTE", 1), ("DWORD", 4)):
+    contract(
+        id=f"bits.decode.fresh.{_n}", func=DT + "DataType.decode", call="cls.decode(data)",
+        bind={"cls": [DT + _n], "k": ["0", "3", str(8 * _w - 1)]}, params={"data": P.bytes(len=_w)},
+        setup=["first = cls.decode(data)", "first[k] = not first[k]", "dropped = first.pop()"],
+        ensures=[f"result == spec.cip_codec.decode_bits('{_n}', data)", "result is not first"], props=["C06", "C07"])
+
 # ------------------------------------------------------------------ STRINGI (international string: count, then language / type / character set / string)
 _SK = {"STRING": 0xFF, "SHORT_STRING": 0xFF, "STRING2": 0xFFFF, "STRINGN": 0x7F}
 _LANG = P.oneof(P.str(maxcp=0x7F, minlen=3, maxlen=3), P.str(maxcp=0xFFFF, maxlen=5), P.const("None"), P.const("b'eng'"))
